@@ -115,7 +115,7 @@ func main() {
 		dg := "driver/" + d
 		res := make([]obs, len(cfgs))
 		var wg sync.WaitGroup
-		sem := make(chan struct{}, 2)
+		sem := make(chan struct{}, 4)
 		for i, c := range cfgs {
 			wg.Add(1)
 			go func(i int, c cfg) {
@@ -193,6 +193,9 @@ func main() {
 			}
 		}
 		r.Add(int(total))
+		if len(groups) == 0 {
+			r.Harness("driver " + d + " produced no observation group")
+		}
 		r.Sample(map[string]any{"driver": d, "groups": len(groups), "configs": []string{"default", "noadx", "noavx512", "purego"}, "example_group": groups[len(groups)/2], "example_digest": res[0][groups[len(groups)/2]].Sha256})
 	}
 	r.Finish()
